@@ -280,6 +280,36 @@ fn date_on_year(
     }
 }
 
+/// Get the year explicitly attached to a date.
+fn date_year(date: &ds::Date) -> Option<i32> {
+    match date {
+        ds::Date::Fixed { year, .. } | ds::Date::Easter { year } => year.map(Into::into),
+    }
+}
+
+/// A range which starts from a date with an explicit year describes a single interval: it ends
+/// on the year specified for its end or else on the first occurence of its end that follows the
+/// start. Returns `None` if the start has no explicit year or if the interval is empty.
+fn dated_range(
+    (start, start_offset): &(ds::Date, ds::DateOffset),
+    (end, end_offset): &(ds::Date, ds::DateOffset),
+) -> Option<RangeInclusive<NaiveDate>> {
+    let start_year = date_year(start)?;
+    let range_start = start_offset.apply(date_on_year(*start, start_year, valid_ymd_after)?);
+
+    let end_years = match date_year(end) {
+        Some(end_year) => end_year..=end_year,
+        None => start_year..=start_year + 1,
+    };
+
+    let range_end = end_years
+        .filter_map(|year| date_on_year(*end, year, valid_ymd_before))
+        .map(|date| end_offset.apply(date))
+        .find(|range_end| *range_end >= range_start)?;
+
+    Some(range_start..=range_end)
+}
+
 impl DateFilter for ds::MonthdayRange {
     fn filter<L>(&self, date: NaiveDate, _ctx: &Context<L>) -> bool
     where
@@ -297,6 +327,11 @@ impl DateFilter for ds::MonthdayRange {
                 end: (end, end_offset),
             } => {
                 let year = date.year();
+
+                if start.has_year() {
+                    return dated_range(&(*start, *start_offset), &(*end, *end_offset))
+                        .is_some_and(|range| range.contains(&date));
+                }
 
                 if *start == Date::md(29, Month::February) && *end == Date::md(29, Month::February)
                 {
@@ -364,40 +399,16 @@ impl DateFilter for ds::MonthdayRange {
                 // `end` is the first day after the range, bounds are inclusive
                 Some(next_change_from_bounds(date, [start], end.pred_opt()))
             }
-            ds::MonthdayRange::Date {
-                start:
-                    (
-                        ds::Date::Fixed {
-                            year: Some(start_year),
-                            month: start_month,
-                            day: start_day,
-                        },
-                        start_offset,
-                    ),
-                end:
-                    (ds::Date::Fixed { year: end_year, month: end_month, day: end_day }, end_offset),
-            } => {
-                let start = start_offset.apply(NaiveDate::from_ymd_opt(
-                    (*start_year).into(),
-                    *start_month as _,
-                    (*start_day).into(),
-                )?);
-
-                let end = {
-                    let candidate = end_offset.apply(NaiveDate::from_ymd_opt(
-                        end_year.unwrap_or_else(|| *start_year).into(),
-                        *end_month as _,
-                        (*end_day).into(),
-                    )?);
-
-                    if start <= candidate {
-                        candidate
-                    } else {
-                        candidate.with_year(candidate.year() + 1)?
-                    }
+            ds::MonthdayRange::Date { start, end } if start.0.has_year() => {
+                let Some(range) = dated_range(start, end) else {
+                    return Some(DATE_END.date());
                 };
 
-                Some(next_change_from_bounds(date, [start], [end]))
+                Some(next_change_from_bounds(
+                    date,
+                    [*range.start()],
+                    [*range.end()],
+                ))
             }
             ds::MonthdayRange::Date {
                 start: (start, start_offset),
